@@ -21,7 +21,7 @@ structure DState where
 /-- new state, acceptable outcomes (`any` accepts everything), optional note -/
 def dispatch (st : DState) (l : Line) : Option (DState × List String × Option String) :=
   match l.verbs.head? with
-  | some "c01" => (DriverC01.handle st.c01 l).map (fun (s, a) => ({ st with c01 := s }, a, none))
+  | some "c01" => (DriverC01.handle st.c01 l).map (fun (s, a, n) => ({ st with c01 := s }, a, n))
   | some "c08" => (DriverC08.handle st.c08 l).map (fun (s, a, n) => ({ st with c08 := s }, a, n))
   | some "c09" => (DriverC09.handle l).map (fun m => (st, [m], none))
   | some "c10" => (DriverC10.handle l).map (fun m => (st, [m], none))
